@@ -420,6 +420,29 @@ def build():
         sp.hints = lambda c: d_NSP(Unit(c.fld["node"].t), IntVal(0), eff(c.fld)[1])
         sp.variant = k + "/first-call"
         specs.append(sp)
+    # later calls: the stored iterator simply continues (one more element, or StopIteration when exhausted)
+    from pyvc.seqworld import SeqR as _SeqR
+    for elem, sort_, nm in (("ref", SeqR, "node-iterators"), ("qseq", SeqSeqR, "group-iterators")):
+        G = Const("stored_seq_" + elem, sort_)
+        POS = Int("stored_pos_" + elem)
+
+        def later_fields(c, elem=elem):
+            return {"node": V("ref", Const("f_node", R)), "filter_": V("ref", NONE), "stop": V("ref", NONE), "maxlevel": V("ref", NONE),
+                    "_AbstractIter__iter": V("gen", 9000 + (0 if elem == "ref" else 1), {"elem": elem})}
+
+        def later_item(c, S1, r, G=G, POS=POS, elem=elem):
+            p = c.final_path
+            gs, gp, _ = p.extra["gens"][9000 + (0 if elem == "ref" else 1)]
+            return [Clause("next-element-of-the-stored-iterator", r.t == G[POS]), Clause("stored-iterator-advanced-by-one", And(gs == G, gp == POS + 1))]
+        sp = QSpec(reg, FILES[AI], AI, "__next__", "method", [("self", "obj:AbstractIter")],
+                   (lambda G=G, POS=POS: lambda c: [Clause("position-in-range", And(0 <= POS, POS <= Length(G)))])(), [
+            Outcome("item", "return", later_item, res="qseq" if elem == "qseq" else "ref", mods=(), when=(lambda G=G, POS=POS: lambda c: POS < Length(G))()),
+            Outcome("exhausted", "raise", lambda c, S1, r: [], exc="StopIteration", mods=(), when=(lambda G=G, POS=POS: lambda c: POS >= Length(G))())],
+            props=P56)
+        sp.fields = later_fields
+        sp.init_extra = (lambda G=G, POS=POS, elem=elem: lambda c: {"gens": {9000 + (0 if elem == "ref" else 1): (G, POS, elem)}})()
+        sp.variant = "later-call/" + nm
+        specs.append(sp)
     return reg, specs
 
 
